@@ -343,3 +343,5 @@ func TestMassConservedPerModel(t *testing.T) {
 		t.Run(name, func(t *testing.T) { pbt.Run(t, genFor(name), check) })
 	}
 }
+
+func FuzzMassConserved(f *testing.F) { pbt.Fuzz(f, genFor(""), check) }
